@@ -467,6 +467,16 @@ class Prop(fw.PropBase):
             # the contig-per-process job list (D8, C05) is repaired in /repo: small contigs, a lone small contig and
             # unmapped reads are part of the main stream; only fragments longer than the margin stay outside the property
             cases.append({'stream': 'main' if kind == 'd8' else 'exposed:' + kind, 'lib': lib, 'runs': runs, 'B': B})
+        # options that only affect bookkeeping must not change the output (head / max_time_per_segment change it on purpose
+        # and are not used; blacklist_path raises NotImplementedError): job BED file, temp folder, ignore_bam_issues, the
+        # unused molecule_iterator argument.  -jobbed is refused (assert) in contig-per-process mode.
+        for c in cases:
+            for run in c['runs']:
+                run['nested_tmp'] = rng.random() < 0.3
+                run['ignore_bam_issues'] = rng.random() < 0.3
+                if run['mode'] == 'tiled':
+                    run['job_bed'] = rng.choice([None, None, 'bed', 'bed.gz'])
+                    run['pass_iterator'] = rng.random() < 0.7
         return cases
 
     # ------------------------------------------------------------------ evaluation of one library run (no model needed)
@@ -527,6 +537,17 @@ class Prop(fw.PropBase):
                     own = (f['contig'] == nt[0]) if not nt[1] else (f['site'] is not None and f['contig'] == nt[0] and nt[2] <= f['site'] < nt[3])
                     if not own:
                         probs.append('record %s (site %s) written by task %r which does not own it' % (rid, f['site'], t))
+        # bookkeeping: the job BED file describes exactly the jobs that were run
+        if run.get('job_bed'):
+            exp_bed = [[str(t[0]), str(t[3]), str(t[4]), '%d:%d' % (j, i), '1', '+', str(t[1]), str(t[2])]
+                       for j, job in enumerate(jobs) for i, t in enumerate(job)]
+            if r.get('bed') is None:
+                probs.append('job_bed_file was requested and not written')
+            elif r['bed'] != exp_bed:
+                probs.append('the job BED file (%d lines) does not describe the jobs that were run (%d tasks in %d jobs): first BED line %r'
+                             % (len(r['bed']), len(exp_bed), len(jobs), r['bed'][:1]))
+        if r.get('tmp_left'):
+            probs.append('temporary files left in temp_folder_root: %r' % r['tmp_left'][:3])
         out['problems'] = probs
         out['counts'] = counts
         out['expected'] = expected
@@ -546,7 +567,8 @@ class Prop(fw.PropBase):
         streams = {}
         evals = []
         nontriv = set()
-        hist = {'tasks_per_run': {}, 'frags_near_boundary': 0, 'frags': 0, 'use_pool_runs': 0, 'cpp_runs': 0, 'tiled_runs': 0}
+        hist = {'tasks_per_run': {}, 'frags_near_boundary': 0, 'frags': 0, 'use_pool_runs': 0, 'cpp_runs': 0, 'tiled_runs': 0,
+                'job_bed_runs': 0, 'job_bed_gz_runs': 0, 'nested_tmp_runs': 0, 'ignore_bam_issues_runs': 0}
         for case, r in zip(libs, res['libs']):
             if r.get('error'):
                 dis.append({'kind': 'serial run failed', 'lib': case['lib'], 'error': r['error']})
@@ -564,6 +586,10 @@ class Prop(fw.PropBase):
                                                          'not_enforced_reasons': {}})
                 st['runs'] += 1
                 hist['use_pool_runs'] += int(run['mode'] == 'tiled' and run['use_pool'])
+                hist['job_bed_runs'] += int(bool(run.get('job_bed')))
+                hist['job_bed_gz_runs'] += int(run.get('job_bed') == 'bed.gz')
+                hist['nested_tmp_runs'] += int(bool(run.get('nested_tmp')))
+                hist['ignore_bam_issues_runs'] += int(bool(run.get('ignore_bam_issues')))
                 hist['cpp_runs' if run['mode'] == 'cpp' else 'tiled_runs'] += 1
                 ntask = sum(len(j) for j in (rr.get('jobs') or []))
                 hist['tasks_per_run'][str(min(ntask, 20))] = hist['tasks_per_run'].get(str(min(ntask, 20)), 0) + 1
@@ -717,7 +743,12 @@ class Prop(fw.PropBase):
                     what = ('%s run %r: %s' % (mode, run, '; '.join(ev['problems'][:3]) if ev['pre'] else
                                                'the job list the implementation built is not acceptable: ' + ev['why'] + ' -- job list %r' % (rr.get('jobs'),) +
                                                ('; consequence: ' + '; '.join(ev['problems'][:3]) if ev['problems'] else '')))
-                    kind = 'lost' if any('by no job' in p for p in ev['problems']) else 'dup' if any('tasks' in p or 'twice' in p for p in ev['problems']) \
+                    absent = sorted(set(r['serial']) - set(rr.get('out', {})), key=lambda x: (len(x), x))
+                    if not ev['pre'] and absent:
+                        what += '; %d of %d serial records are absent from the output (e.g. %s)' % (len(absent), len(r['serial']), ', '.join(absent[:4]))
+                    kind = 'lost' if (any('by no job' in p for p in ev['problems']) or (not ev['pre'] and absent)) \
+                        else 'dup' if any(' tasks: ' in p or 'but twice' in p for p in ev['problems']) \
+                        else 'bookkeeping' if any('BED' in p or 'temporary files' in p for p in ev['problems']) \
                         else 'differs' if ev['problems'] else 'precondition'
                     bestl = (size, {'key': 'e2e:%s:%s' % (run['mode'], kind), 'what': what,
                                     'input': {'lib': case['lib'], 'run': run}, 'impl': {'jobs': rr.get('jobs'), 'diff': rr.get('diff', [])[:6],
